@@ -57,18 +57,29 @@ static void vp_check_path(const char *p, const char *what)
 		  "C06: path is exactly the chain of entry names from the unpack root");
 }
 
-int mkdir(const char *p, mode_t m) { (void)m; vp_check_path(p, "mkdir"); return 0; }
-int symlink(const char *t, const char *p) { (void)t; vp_check_path(p, "symlink"); return 0; }
-int mknod(const char *p, mode_t m, dev_t d) { (void)m; (void)d; vp_check_path(p, "mknod"); return 0; }
+/* SYSFAIL (C13): every system call may fail with EIO; nothing may be called after a failure */
+#include <errno.h>
+#include <stdio.h>
+static int sys_failed, diag;
+#ifdef SYSFAIL
+#define VP_MAYFAIL() do { VP_ASSERT(!sys_failed, "C13: no further system call after a failed one"); if (ND_BOOL()) { sys_failed = 1; errno = EIO; return -1; } } while (0)
+#define fprintf(...) ((void)(diag++))
+#define fputs(s, f) ((void)(diag++))
+#else
+#define VP_MAYFAIL() do { } while (0)
+#endif
+int mkdir(const char *p, mode_t m) { (void)m; vp_check_path(p, "mkdir"); VP_MAYFAIL(); return 0; }
+int symlink(const char *t, const char *p) { (void)t; vp_check_path(p, "symlink"); VP_MAYFAIL(); return 0; }
+int mknod(const char *p, mode_t m, dev_t d) { (void)m; (void)d; vp_check_path(p, "mknod"); VP_MAYFAIL(); return 0; }
 static int open_flags_ok = 1;
-int open(const char *p, int fl, ...) { vp_check_path(p, "open"); if ((fl & (O_CREAT | O_EXCL)) != (O_CREAT | O_EXCL)) open_flags_ok = 0; return 3; }
+int open(const char *p, int fl, ...) { vp_check_path(p, "open"); if ((fl & (O_CREAT | O_EXCL)) != (O_CREAT | O_EXCL)) open_flags_ok = 0; VP_MAYFAIL(); return 3; }
 int close(int fd) { (void)fd; return 0; }
 static int nofollow_ok = 1, chmod_on_symlink;
 static int cur_is_symlink;
-int utimensat(int d, const char *p, const struct timespec t[2], int fl) { (void)t; vp_check_path(p, "utimensat"); if (d != AT_FDCWD || !(fl & AT_SYMLINK_NOFOLLOW)) nofollow_ok = 0; return 0; }
-int fchownat(int d, const char *p, uid_t u, gid_t g, int fl) { (void)u; (void)g; vp_check_path(p, "fchownat"); if (d != AT_FDCWD || !(fl & AT_SYMLINK_NOFOLLOW)) nofollow_ok = 0; return 0; }
+int utimensat(int d, const char *p, const struct timespec t[2], int fl) { (void)t; vp_check_path(p, "utimensat"); if (d != AT_FDCWD || !(fl & AT_SYMLINK_NOFOLLOW)) nofollow_ok = 0; VP_MAYFAIL(); return 0; }
+int fchownat(int d, const char *p, uid_t u, gid_t g, int fl) { (void)u; (void)g; vp_check_path(p, "fchownat"); if (d != AT_FDCWD || !(fl & AT_SYMLINK_NOFOLLOW)) nofollow_ok = 0; VP_MAYFAIL(); return 0; }
 
-void sqfs_perror(const char *f, const char *a, int c) { (void)f; (void)a; (void)c; }
+void sqfs_perror(const char *f, const char *a, int c) { (void)f; (void)a; (void)c; diag++; }
 
 #include "bin/rdsquashfs/src/restore_fstree.c"
 
@@ -84,6 +95,7 @@ int fchmodat(int d, const char *p, mode_t m, int fl)
 	if ((strcmp(p, (const char *)NA.n.name) == 0 && S_ISLNK(IA.base.mode)) ||
 	    (p[lenA] == '/' && S_ISLNK(IB.base.mode)))
 		chmod_on_symlink = 1;
+	VP_MAYFAIL();
 	return 0;
 }
 
@@ -131,6 +143,16 @@ void harness(void)
 	flags &= (UNPACK_CHMOD | UNPACK_CHOWN | UNPACK_QUIET | UNPACK_NO_SPARSE | UNPACK_SET_TIMES);	/* xattr path needs a reader */
 
 	ret = restore_fstree(&ROOT.n, flags | UNPACK_QUIET);
+#ifdef SYSFAIL
+	VP_ASSERT((ret != 0) == (sys_failed || lenA == 0 || (S_ISDIR(IA.base.mode) && lenB == 0 && is_filename_sane(nameA, true))), "C13: creating the tree fails iff a system call failed (or an entry name is empty)");
+	VP_ASSERT(ret == 0 || diag >= 1, "C13: a failing unpack prints a diagnostic");
+	if (ret != 0) { VP_REACH("create_failed"); return; }
+	ret = update_tree_attribs(NULL, &ROOT.n, flags);
+	VP_ASSERT((ret != 0) == (sys_failed != 0), "C13: setting attributes fails iff a system call failed");
+	VP_ASSERT(ret == 0 || diag >= 1, "C13: a failing attribute step prints a diagnostic");
+	if (ret != 0) VP_REACH("attrib_failed"); else VP_REACH("all_ok");
+	return;
+#endif
 	/* an EMPTY name passes is_filename_sane() and is then refused by
 	   sqfs_tree_node_get_path(): the tool fails (allowed by the property) */
 	VP_ASSERT(ret == 0 || lenA == 0 || (S_ISDIR(IA.base.mode) && lenB == 0), "unpacking fails only for an empty entry name");
